@@ -716,6 +716,10 @@ func TestSim(t *testing.T) {
 	memWatchdog()
 	var job Job
 	mustRead(t, jobPath, &job)
+	if !job.Race && !simrt.GoidIsFast() && os.Getenv("VERIF_ALLOW_SLOW_GOID") == "" {
+		fmt.Fprintln(os.Stderr, "VERIF-INFRA: goroutine-id calibration failed:", simrt.GoidCalReason())
+		os.Exit(3)
+	}
 	mustRead(t, job.Workload, &workload)
 	for i := range workload {
 		byName[workload[i].Name] = &workload[i]
